@@ -393,6 +393,10 @@ func genC01(seed uint64) (*Scenario, *c01Meta) {
 	if f0 == "fixed" || f1 == "fixed" {
 		sc.Procs[0].Flags = map[string]string{"IMPORT_FORMAT": "FIXED"}
 	}
+	// session flags that change how tables are parsed, compared and written (the
+	// fresh process that reads the result uses the same ones)
+	sc.Procs[0].Flags = mergeFlags(swarmFlags(Sub(seed, "c01-flags"), 0.3, true), sc.Procs[0].Flags)
+	avoidBareCR(sc.Procs[0].Flags, sc.Files, sc.Procs[0].Program)
 	sc.Meta = map[string]string{"workload": mustJSON(m)}
 	sc.Knobs = Knobs{RowStride: 1, Pool: "lifo", MinPerCore: r.Pick(0, 2)}
 	if strings.Contains(strings.Join(g.lines, "\n"), "SOURCE `") {
